@@ -300,8 +300,8 @@ func (l *Lexer) shiftAttribute() []byte {
 				if c == delim {
 					l.r.Move(1)
 					break
-				} else if c == 0 {
-					break
+				} else if c == 0 || l.inPI && l.atTagEnd(c) {
+					break // a processing instruction ends at the first ?>, also inside a quote
 				}
 				l.r.Move(1)
 				if c == '\t' || c == '\n' || c == '\r' {
